@@ -352,7 +352,7 @@ def run(res, rng, tier, known):
     replay_decisions(res, rec.calls, res.prop, "to_tt")
     # exact tie of the sweep's data flow (reshapes, factor placement) with exact integer oracles in place of SVD / rank_chop
     from checks.sweeps import sweep_cases
-    run_cases(res, sweep_cases(rng, tier, "to_tt"), known)
+    run_cases(res, sweep_cases(rng, tier, "to_tt") + sweep_cases(rng, tier, "mat_to_tt"), known)
     res.extra["svd_contract_calls_bad"] = len(rec.svd_bad)
     if rec.svd_bad:
         res.notes.append("SVD contract breaches (oracle assumption, not a property violation by itself): %s" % rec.svd_bad[:3])
